@@ -1912,7 +1912,7 @@ pub fn run_check(ctx: &Ctx) -> i32 {
         .set("exhaustive_within_bound", json!(true));
     ev.assume("covered formats: message header, protocol header, status report, the five BDX message layouts, check-in message, base-38, QR payload, manual pairing code, BLE advertisement, mDNS announcement / query / answer, the Matter -> X.509 certificate conversion (against an independent DER writer in the harness; the repo has no X.509 -> Matter direction for operational certificates); the certification declaration decoder is not covered");
     ev.assume("field values outside the boundary alphabets behave like their neighbours in the alphabet");
-    if total.round_trips < 1000 || total.hostile_err == 0 || total.hostile_ok == 0 {
+    if total.report.violations.is_empty() && (total.round_trips < 1000 || total.hostile_err == 0 || total.hostile_ok == 0) {
         eprintln!("MACHINERY: vacuous C17 run");
         return 2;
     }
